@@ -486,9 +486,9 @@ func (w *world) closeSrv() {
 	w.srv = nil
 }
 
-//	guard <htype> <internal> <prefix> <spec>
-//	access <htype> <internal> <creds> <prefix> <METHOD> <subpath-hex> <spec>
-//	fixed <path> <spec>
+// guard <htype> <internal> <prefix> <spec>
+// access <htype> <internal> <creds> <prefix> <METHOD> <subpath-hex> <spec>
+// fixed <path> <spec>
 func (w *world) execSrv(ws []string) string {
 	if !w.keepSrv {
 		defer w.closeSrv()
